@@ -103,7 +103,8 @@ def interesting(
         is_file: bool = False,
     ) -> bool:
         if is_file:
-            return not filecmp.cmp(a_data, b_run)
+            # compare the contents: a shallow comparison trusts equal size and mtime
+            return not filecmp.cmp(a_data, b_run, shallow=False)
         return a_data != b_run
 
     if temp_prefix:
